@@ -7,6 +7,7 @@ A case's failures are all looked at: an unattributed failure (finding None) is r
 finding can never hide a different violation on the same case.
 """
 import json
+import zlib
 
 from . import pipes
 from .core import Suite
@@ -28,7 +29,9 @@ def with_oracle(base, oracle_fn, name=None, oracle_opts=None, every=1, ignore_ki
 
         def oracle(self, case, real_out):
             self._n += 1
-            if every > 1 and (self._n % every) != 0 and not case.get("_always"):
+            # which cases the oracle judges is a fixed function of the case (not of its position in the stream), so that
+            # a replay of a reported case judges it again
+            if every > 1 and not case.get("_always") and (zlib.crc32(_sig(case).encode()) % every) != 0:
                 return None
             c = dict(case)
             c.setdefault("meta", {})
